@@ -278,7 +278,7 @@ func (d *dynUpdater) checkBackendPair(pair *backendPair) bool {
 	for _, endpoint := range curBack.Endpoints {
 		if pair, found := endpoints[endpoint.Target]; found {
 			pair.cur = endpoint
-			pair.cur.Name = pair.old.Name
+			renameEndpoint(pair.cur, pair.old.Name)
 		} else {
 			added = append(added, endpoint)
 		}
@@ -292,7 +292,7 @@ func (d *dynUpdater) checkBackendPair(pair *backendPair) bool {
 		pair := endpoints[target]
 		if pair.cur == nil && len(added) > 0 {
 			pair.cur = added[0]
-			pair.cur.Name = pair.old.Name
+			renameEndpoint(pair.cur, pair.old.Name)
 			added = added[1:]
 		}
 		if pair.cur == nil {
@@ -306,7 +306,7 @@ func (d *dynUpdater) checkBackendPair(pair *backendPair) bool {
 	}
 	for i := range added {
 		// reusing empty slots from oldBack
-		added[i].Name = empty[i].Name
+		renameEndpoint(added[i], empty[i].Name)
 		if curBack.Cookie.Preserve && added[i].CookieValue != empty[i].CookieValue {
 			// if cookie doesn't match here and preserving the value is
 			// important, don't even enable the endpoint before reloading
@@ -318,10 +318,20 @@ func (d *dynUpdater) checkBackendPair(pair *backendPair) bool {
 
 	// copy remaining empty slots from oldBack to curBack, so it can be used in a future update
 	for i := len(added); i < len(empty); i++ {
-		curBack.AddEmptyEndpoint().Name = empty[i].Name
+		renameEndpoint(curBack.AddEmptyEndpoint(), empty[i].Name)
 	}
 
 	return updated
+}
+
+// renameEndpoint gives the endpoint the name of the server slot it is going to
+// use. A cookie value derived from the server name follows the new name, which
+// is the value the running server already has.
+func renameEndpoint(ep *hatypes.Endpoint, name string) {
+	if ep.CookieValue == ep.Name {
+		ep.CookieValue = name
+	}
+	ep.Name = name
 }
 
 func (d *dynUpdater) checkEndpointPair(backend *hatypes.Backend, pair *epPair) bool {
